@@ -153,3 +153,17 @@ Definition run_fs (st : option Loaded) (rt : option Routing) (F : fs) (op : stri
     end
   | _, _ => (run st op args, F)
   end.
+
+(** A history in one request: "seq" [[op1; args1]; [op2; args2]; ...] runs the operations in order on the threaded
+    file-system state and returns the list of their answers.  The model is pure, so every answer is the answer of the
+    operation alone: this is what the implementation is compared with when a history is sent as one case (C02, C12, C13). *)
+Fixpoint run_seq (st : option Loaded) (rt : option Routing) (F : fs) (steps : list tree) (acc : list tree) : tree * fs :=
+  match steps with
+  | [] => (N (rev acc), F)
+  | N [L op; N args] :: rest =>
+      let '(r, F') := run_fs st rt F op args in run_seq st rt F' rest (r :: acc)
+  | _ :: rest => run_seq st rt F rest (bad :: acc)
+  end.
+
+Definition run_top (st : option Loaded) (rt : option Routing) (F : fs) (op : string) (args : list tree) : tree * fs :=
+  if String.eqb op "seq" then run_seq st rt F args [] else run_fs st rt F op args.
